@@ -7,6 +7,7 @@ package main
 import (
 	"bytes"
 	"encoding/json"
+	"errors"
 	"fmt"
 	"io"
 	"math/rand"
@@ -374,7 +375,34 @@ func checkC17(c *Ctx) {
 					muts = append(muts, "struct: empty intelRdt object")
 				}
 			}
+			var ci int
+			fmt.Sscanf(cs.Name, "gen:%d", &ci)
+			large := ci < 6 && k >= 1
+			if large {
+				// documents of more than a MiB, every other one with its only defect in the last
+				// device (size is no excuse, whatever the entry point)
+				filler := strings.Repeat("x", 2000)
+				for n := 0; n < 640+ci*40; n++ {
+					spec.Devices = append(spec.Devices, specs.Device{Name: fmt.Sprintf("fill%d", n), ContainerEdits: specs.ContainerEdits{Env: []string{"F=" + filler}}})
+				}
+				muts = append(muts, fmt.Sprintf("large document: %d devices", len(spec.Devices)))
+				c.Count("documents_of_more_than_a_mib", 1)
+			}
 			d := specDoc(spec)
+			if large && ci%2 == 1 {
+				if devs, ok := d.Get("devices"); ok {
+					if list, ok := devs.([]any); ok && len(list) > 0 {
+						if last, ok := list[len(list)-1].(*OMap); ok {
+							last.Set("name", 7)
+							muts = append(muts, "last device: name = 7")
+							spec = nil
+						}
+					}
+				}
+			}
+			if large {
+				k = 3 // (no further mutation)
+			}
 			if chance(r, 4) {
 				muts = append(muts, c17BigAnnotations(r, d))
 				spec = nil
@@ -517,6 +545,20 @@ func checkC17(c *Ctx) {
 			}
 			m["results"] = rs
 			return m
+		}
+		if chance(r, 25) {
+			// a read that fails half way (the reader delivers some bytes, then an error that is
+			// not the end of the data) on the same schema objects, just before: what the next
+			// call decides is about the next call's document only
+			left := pickStr(r, `{"cdiVersion":"0.6.0","kind":"vendor.com/gpu","devices":[{"name":"d","containerEdits":{"env":["A=b"]}}]}`, `{"cdiVersion":"0.6.0","kind":"vendor.com/gpu","devices":[{"name":"d","contain`, `{}`, "\x00\x00\x00")
+			for _, sch := range []*schema.Schema{builtin, externals[0], none} {
+				if err := sch.ValidateReader(io.MultiReader(strings.NewReader(left), iotest.ErrReader(errors.New("injected read failure")))); err == nil {
+					cs.Violation("verdict", map[string]string{"entry": "ValidateReader(failing reader)"}, "ValidateReader reports success for a reader that failed with an error before the end of the data", map[string]any{"delivered_before_the_failure": left})
+					return
+				}
+			}
+			c.Count("reader_calls_after_a_failed_read", 1)
+			muts = append(muts, "after a failed read on the same schema objects")
 		}
 		rb := entries(builtin, "builtin", true)
 		xi := r.Intn(len(externals))
